@@ -47,6 +47,7 @@ GATES = {
     "networks": ["net:mainnet", "net:testnet"],
     "unusual-valid-sigs": ["goodsig:short-r-nonce-half", "goodsig:short-r-high-s-flipped-nonce"],
     "psbt-from-signed-tx": ["from-signed:p2pkh"],
+    "interop-shapes": ["rt:both-utxo-forms", "topup:foreign-key-signature-as-the-mth"],
     "psbt-from-library-builder": ["helper-built:path-without-coin-type", "helper-built:bip48-path", "helper-built:net=mainnet", "helper-built:net=testnet"],
 }
 
@@ -220,6 +221,34 @@ def check_roundtrip(ctx, raw, wallet, stage):
         ctx.violation(f"psbt-roundtrip-bytes-differ:{stage}", "serialize(parse(x)) != x for a library-produced x", case)
 
 
+def both_utxo_forms(ctx, wallet, sc, base):
+    """Segwit inputs carrying the witness UTXO AND the full previous transaction (what Bitcoin Core writes since the
+    fee-overpayment advisory): a PSBT the library parses; what it then serialises has to parse again, to the same bytes."""
+    from props.psbtlib import reparse
+
+    m = rp.decode(base)
+    if not any(k == b"\x01" for imap in m["ins"] for k, _ in imap):
+        return
+    ins = []
+    for k_in, imap in enumerate(m["ins"]):
+        prev_raw = sc.funding[k_in][0].serialize()
+        ins.append(([(b"\x00", prev_raw)] if any(k == b"\x01" for k, _ in imap) and not any(k == b"\x00" for k, _ in imap) else []) + list(imap))
+    raw = rp.encode({"global": m["global"], "ins": ins, "outs": m["outs"]})
+    ctx.count("rt:both-utxo-forms")
+    ctx.monitor("psbt-roundtrip")
+    case = {"op": "psbt-bytes", "raw": raw, "network": wallet.network, "stage": "both-utxo-forms"}
+    o = outcome(lambda: reparse(raw, wallet.network).serialize())
+    if o[0] == "exc":
+        ctx.count("observed:both-utxo-forms-refused-at-parse")
+        return
+    o2 = outcome(lambda: reparse(o[1], wallet.network).serialize())
+    if o2[0] == "exc":
+        ctx.violation("psbt-roundtrip-raises:both-utxo-forms", f"the library's own serialisation of a parsed PSBT does not parse: {o2[1]}", case)
+    elif o2[1] != o[1]:
+        ctx.violation("psbt-roundtrip-bytes-differ:both-utxo-forms", "serialize(parse(serialize(parse(x)))) != serialize(parse(x))", case)
+    ctx.case((raw, "both-forms"))
+
+
 def run_history(ctx, wallet, base, signer_cache, desc):
     """desc = (shape, order tuple).  Returns combined PSBT bytes."""
     shape, order = desc
@@ -332,6 +361,7 @@ def one_wallet(ctx, rng, kind, m, n, network, n_in, segwit_flag, quick):
         return
     base = ob[1]
     check_roundtrip(ctx, base, wallet, "created")
+    both_utxo_forms(ctx, wallet, sc, base)
     cache = {}
     results = {}
     for S, hs in histories_for(rng, n, quick, m).items():
@@ -381,6 +411,7 @@ def one_wallet(ctx, rng, kind, m, n, network, n_in, segwit_flag, quick):
                     "histories": {str(S): [(d[0], list(d[1])) for d, _, _ in g] for S, g in list(results.items())[:4]}})
     bad_partial_sigs(ctx, rng, wallet, sc, base, cache)
     unusual_partial_sigs(ctx, rng, wallet, sc, base, cache)
+    foreign_sig_topup(ctx, rng, wallet, sc, base, cache)
 
 
 # ---- negative: partial signatures that do not verify ---------------------------------------------------------------
@@ -523,6 +554,40 @@ def unusual_partial_sigs(ctx, rng, wallet, sc, base, cache):
             if of[0] == "exc":
                 ctx.violation(f"final-tx-refused-with-valid-short-sig:{wallet.kind}", of[1], case)
         ctx.case((raw,))
+
+
+def foreign_sig_topup(ctx, rng, wallet, sc, base, cache):
+    """m-1 cosigners have signed; the missing signature is "supplied" by a key that is NOT in the script (a perfectly
+    valid signature of that foreign key over the right digest).  The PSBT may load or not - but finalising it must fail:
+    decided by the PSBTIn.finalize contract (signatures by script keys < m)."""
+    from props.psbtlib import reparse
+
+    if wallet.kind not in ("p2sh", "p2wsh", "p2sh-p2wsh"):
+        return
+    o = outcome(run_history, ctx, wallet, base, cache, ("sequential", tuple(range(wallet.m - 1))))
+    if o[0] != "ok":
+        return
+    m = rp.decode(o[1])
+    model = m["tx"]
+    d = rng.randrange(1, ec.N)
+    sec_d = ec.sec(ec.mul(d))
+    ins = []
+    for k, imap in enumerate(m["ins"]):
+        z = int.from_bytes(digest_for_input(sc, model, k), "big")
+        r_, s_, _, _ = ec.ecdsa_sign(d, z)
+        ins.append(list(imap) + [(b"\x02" + sec_d, ec.der(r_, s_) + b"\x01")])
+    raw = rp.encode({"global": m["global"], "ins": ins, "outs": m["outs"]})
+    ctx.count("topup:foreign-key-signature-as-the-mth")
+    ctx.monitor("foreign-sig-topup")
+    case = {"op": "psbt-bytes", "raw": raw, "network": wallet.network, "stage": "foreign-sig-topup"}
+    ol = outcome(reparse, raw, wallet.network)
+    if ol[0] == "exc":
+        ctx.count("topup:refused-at-load")
+        return
+    of = outcome(op_finalize, raw, wallet)
+    if of[0] == "ok":
+        ctx.violation(f"final-tx-with-too-few-signers:{wallet.kind}", f"{wallet.m - 1} cosigner signature(s) plus one by a key outside the script produced a transaction", case)
+    ctx.case((raw, "topup"))
 
 
 # ---- a PSBT made from a transaction that was already signed the plain way -------------------------------------------
